@@ -929,9 +929,109 @@ def rule_fwdsib(ctx, prop: str) -> RuleResult:
                     "a block is forwarded through a move as the span between its forwarded end statements, with no check that the span still has the block's length: "
                     "body()[1:3] = [y, z] forwarded through reorder_stmts(x, y) becomes [y, x, z] — it denotes a statement it did not contain")
         )
+    # (c) a forwarded statement range is the image of the block's OWN two ends.  Every `range(E1, E2)` a
+    #     fwd_block builds from its block parameter b is either length-preserving in linear arithmetic
+    #     (E2 - E1 == b.stop - b.start), or the endpoint-wise image under one index map g
+    #     (range(g(b.start), g(b.stop)) / range(g(b.start), g(b.stop - 1) + 1)), or — only where the block
+    #     CONTAINS the wrapped run — shorter by exactly the statements that disappeared into the wrapper
+    #     (E1 == b.start, E2 == b.stop - (len(R) - 1)).
+    n_rng = 0
+    for owner, fs in sorted(groups.items()):
+        fb = fs.get("fwd_block")
+        if fb is None:
+            continue
+        ps = fb.params()
+        if len(ps) < 2:
+            continue
+        b = ps[-1]
+        outer = m.funcs.get(owner)
+        defs: Dict[str, ast.AST] = {}
+        if outer is not None:
+            for k in outer.node.body:
+                if isinstance(k, ast.Assign) and len(k.targets) == 1 and isinstance(k.targets[0], ast.Name):
+                    defs[k.targets[0].id] = k.value
+
+        def lin(e: ast.AST, depth: int = 0):
+            """linear form {atom: coef} over X.start / X.stop / 1, or None"""
+            if depth > 6:
+                return None
+            if isinstance(e, ast.Constant) and isinstance(e.value, int) and not isinstance(e.value, bool):
+                return {"1": e.value}
+            if isinstance(e, ast.Attribute) and e.attr in ("start", "stop") and isinstance(e.value, ast.Name):
+                return {f"{e.value.id}.{e.attr}": 1}
+            if isinstance(e, ast.Call) and dotted(e.func) == "len" and len(e.args) == 1 and isinstance(e.args[0], ast.Name):
+                x = e.args[0].id
+                return {f"{x}.stop": 1, f"{x}.start": -1}
+            if isinstance(e, ast.Name) and e.id in defs:
+                return lin(defs[e.id], depth + 1)
+            if isinstance(e, ast.BinOp) and isinstance(e.op, (ast.Add, ast.Sub)):
+                l, r = lin(e.left, depth + 1), lin(e.right, depth + 1)
+                if l is None or r is None:
+                    return None
+                sg = 1 if isinstance(e.op, ast.Add) else -1
+                out = dict(l)
+                for k_, v in r.items():
+                    out[k_] = out.get(k_, 0) + sg * v
+                return {k_: v for k_, v in out.items() if v != 0}
+            if isinstance(e, ast.UnaryOp) and isinstance(e.op, ast.USub):
+                l = lin(e.operand, depth + 1)
+                return None if l is None else {k_: -v for k_, v in l.items()}
+            return None
+
+        def sub(a, b_):
+            out = dict(a)
+            for k_, v in b_.items():
+                out[k_] = out.get(k_, 0) - v
+            return {k_: v for k_, v in out.items() if v != 0}
+
+        def endpoint_image(e1: ast.AST, e2: ast.AST) -> bool:
+            # g(b.start) / g(b.stop)   or   g(b.start) / g(b.stop - 1) + 1
+            if isinstance(e2, ast.BinOp) and isinstance(e2.op, ast.Add) and isinstance(e2.right, ast.Constant) and e2.right.value == 1:
+                inner = e2.left
+                if isinstance(e1, ast.Call) and isinstance(inner, ast.Call) and ast.unparse(e1.func) == ast.unparse(inner.func) and len(e1.args) == len(inner.args) == 1:
+                    return ast.unparse(e1.args[0]) == f"{b}.start" and ast.unparse(inner.args[0]) == f"{b}.stop - 1"
+                return False
+            if isinstance(e1, ast.Call) and isinstance(e2, ast.Call) and ast.unparse(e1.func) == ast.unparse(e2.func) and len(e1.args) == len(e2.args) == 1:
+                return ast.unparse(e1.args[0]) == f"{b}.start" and ast.unparse(e2.args[0]) == f"{b}.stop"
+            return False
+
+        for n in fb.body_nodes():
+            if not (isinstance(n, ast.Call) and dotted(n.func) == "range" and len(n.args) == 2):
+                continue
+            e1, e2 = n.args
+            if b not in {k.id for k in ast.walk(n) if isinstance(k, ast.Name)}:
+                continue
+            n_rng += 1
+            res.instances += 1
+            res.nontrivial += 1
+            l1, l2 = lin(e1), lin(e2)
+            how = None
+            if l1 is not None and l2 is not None:
+                d = sub(l2, l1)
+                if d == {f"{b}.stop": 1, f"{b}.start": -1}:
+                    how = "length-preserving"
+                elif "_forward_wrap" in owner and l1 == {f"{b}.start": 1}:
+                    rs = [k_.rsplit(".", 1)[0] for k_ in l2 if not k_.startswith(b + ".") and k_ != "1"]
+                    if len(set(rs)) == 1:
+                        R = rs[0]
+                        if l2 == {f"{b}.stop": 1, f"{R}.stop": -1, f"{R}.start": 1, "1": 1}:
+                            how = "shrinks by the wrapped statements"
+            elif endpoint_image(e1, e2):
+                how = "endpoint-wise image"
+            ok = how is not None
+            res.ob(ok)
+            res.sample(f"{owner}.fwd_block: `{ast.unparse(n)}` {how or 'NOT the image of the block ends'}")
+            if not ok:
+                res.add(
+                    Finding("FWDSIB", IC, n.lineno, f"{owner}.fwd_block", f"range:{ast.unparse(n)[:60]}",
+                            f"`{ast.unparse(n)}` is not the image of the block's own two ends (neither length-preserving, nor an endpoint-wise map, nor the block shrunk by the wrapped statements): "
+                            f"a block [x, y] inside a wrapped run [x, y, z] is forwarded to [x, y, z] — it denotes a statement it never contained")
+                )
+    if n_rng < 4:
+        raise AnalysisError(f"FWDSIB: expected >= 4 forwarded block ranges in the fwd_block siblings, found {n_rng}")
     if n_pairs < 3:
         raise AnalysisError(f"FWDSIB: expected >= 3 fwd_node/fwd_block sibling pairs in internal_cursors.py, found {n_pairs}")
-    res.floor = 3
+    res.floor = 7
     return res
 
 
